@@ -38,6 +38,8 @@ ASSUMPTIONS = ["for thermal CX with several donors, a donor with non-positive de
                "hydrogen-isotope neutral densities of mixed sign are not generated for TotalRadiatedPower (statement silent)",
                "bremsstrahlung bins are chosen so that the integrand varies by at most ~e^8 over a bin",
                "coefficients are non-negative (mock provider); negative coefficients are outside the statement"]
+ASAN_MODULES = ['cherab.core.model.plasma.impact_excitation', 'cherab.core.model.plasma.recombination', 'cherab.core.model.plasma.thermal_cx', 'cherab.core.model.plasma.total_radiated_power', 'cherab.core.model.plasma.bremsstrahlung', 'cherab.core.model.lineshape.gaussian', 'cherab.core.model.lineshape.stark', 'cherab.core.model.lineshape.zeeman', 'cherab.core.model.lineshape.multiplet', 'cherab.tools.emitters.radiation_function']
+ASAN = dict(cases=1500, workers=8, timecap=240)
 QUICK = dict(cases=2000, workers=2, timecap=35)
 THOROUGH = dict(cases=200000, workers=16, timecap=600)
 REQUIRED = {"total": 200, "rate_args": 200, "guard": 80, "nonneg": 200, "linearity": 100, "additivity": 30,
@@ -688,7 +690,6 @@ def _run_line(case, ctx):
         cands = [want] + [a * path for a in alts]
         best = None
         for c in cands:
-            tol = max(abs(c) * (hi_f - 1.0), 0.0) if c != 0 else 0.0
             centre = c * (lo_f + hi_f) / 2.0
             half = abs(c) * (hi_f - lo_f) / 2.0
             r = abs(total - centre) / half if half > 0 else (0.0 if total == 0.0 and bool(np.all(got == 0.0)) else float("inf"))
